@@ -226,8 +226,7 @@ def run_case(case):
         app.addHandler(handler(*['e%d' % nm for nm in names], priority=1000)(on_any))
 
     tasks = OrderedTasks(keyof)
-    if hasattr(app, '_tasks'):
-        app._tasks = tasks
+    common.set_tasks(app, tasks)
     app._running = bool(case['gen'])
     app._executing_thread = threading.current_thread()
 
@@ -261,7 +260,7 @@ def run_case(case):
         else:
             kinds[3] += abs(d)
     try:
-        ntasks = len(app._tasks)
+        ntasks = len(common.get_tasks(app))
     except Exception:
         ntasks = len(tasks)
     return {'log': log, 'roots': [[tok, enc_value(v), 1 if v.errors else 0] for tok, v in rootvals],
@@ -340,7 +339,7 @@ def run_mc(case):
         app.tick(0)
     h1 = snap()
     diff = sorted([k, h1.get(k, 0) - h0.get(k, 0)] for k in set(h0) | set(h1) if h1.get(k, 0) != h0.get(k, 0))
-    return {'mc': [log, diff, len(getattr(app, '_tasks', []))]}
+    return {'mc': [log, diff, len(common.get_tasks(app, []))]}
 
 
 def mc_expect(case):
